@@ -19,7 +19,9 @@ pub fn tmp_root() -> String {
 macro_rules! dispatch {
     ($id:expr, $f:ident, $($args:expr),*) => {
         match $id {
+            "C03" => pbt::$f::<props::c03::C03>($($args),*),
             "C05" => pbt::$f::<props::c05::C05>($($args),*),
+            "C09" => pbt::$f::<props::c09::C09>($($args),*),
             "C14" => pbt::$f::<props::c14::C14>($($args),*),
             "C15" => pbt::$f::<props::c15::C15>($($args),*),
             other => {
